@@ -347,9 +347,10 @@ Section primitives.
   Definition hmac_key_of (seed transformed : bytes) : bytes := sha512 (seed ++ transformed ++ [1]).
   Definition header_mac (hmac_key header : bytes) : bytes := hmac256 (block_key u64_max hmac_key) header.
 
-  (* Salsa20Cipher::new needs a 32-byte key; the other inner ciphers accept any *)
+  (* every inner cipher accepts a key of any length: Salsa20Cipher::new hashes it with SHA-256 (since
+     the repair F17; before, it demanded exactly 32 bytes), ChaCha20Cipher::new with SHA-512 *)
   Definition inner_key_ok (c : icipher) (k : bytes) : bool :=
-    match c with ISalsa20 => Nat.eqb (length k) 32 | _ => true end.
+    match c with ISalsa20 => true | _ => true end.
 
   (* decrypt_kdbx4; [elements] is DatabaseKey::get_key_elements *)
   Definition decrypt4 (data : bytes) (elements : res (list bytes))
